@@ -602,6 +602,10 @@ func (r *Runner) doStep(st *gen.Step) {
 		r.commitWithFault(st)
 		return
 	}
+	if st.Op == "commit" && st.How == "maxsize" && r.Tx != nil {
+		r.commitMaxSize()
+		return
+	}
 	exp := r.Sim.Apply(st)
 	switch st.Op {
 	case "open", "reopen":
@@ -1091,5 +1095,37 @@ func (r *Runner) commitWithFault(st *gen.Step) {
 	r.quiescent("after failed commit")
 	if r.OnFailed != nil {
 		r.OnFailed(r, present)
+	}
+}
+
+// commitMaxSize commits the open write transaction with a size limit in force that no growth of the
+// file can satisfy (DB.MaxSize is an exported, documented field; it is set for the duration of this
+// Commit only). If the transaction has to extend the high-water mark the commit must fail with the
+// size-limit error and leave no trace; if it fits into free pages it is an ordinary commit.
+func (r *Runner) commitMaxSize() {
+	r.statsFresh = true
+	r.DB.MaxSize = 1
+	err := r.Tx.Commit()
+	r.DB.MaxSize = 0
+	r.Tx = nil
+	switch {
+	case err == nil:
+		r.Sim.Apply(&gen.Step{Op: "commit"})
+		r.Stats.Commits++
+		r.FaultLog = append(r.FaultLog, FaultOutcome{})
+		r.quiescent("after commit")
+		if r.AfterCommit != nil {
+			r.AfterCommit(r)
+		}
+	case errors.Is(err, berrors.ErrMaxSizeReached):
+		r.Sim.Apply(&gen.Step{Op: "rollback"})
+		r.FaultLog = append(r.FaultLog, FaultOutcome{FiredOp: "maxsize", Err: err.Error()})
+		r.Stats.Transitions["failed-commit:maxsize"]++
+		r.quiescent("after a commit rejected by the size limit")
+		if r.OnFailed != nil {
+			r.OnFailed(r, false)
+		}
+	default:
+		r.fail("fault:wrong-error", "commit under an unsatisfiable size limit failed with %v, want the size-limit error", err)
 	}
 }
